@@ -24,23 +24,61 @@ Components == UNION {Cat(Atoms, k) : k \in 0..MaxAtoms}
 \* /srv/root   rel   ""   /      (+ a base with a sibling that shares its string prefix)
 Bases == { <<47, 115, 47, 114>>, <<114>>, <<>>, <<SLASH>> }
 
-VARIABLES dir, n, acc, refused
-vars == <<dir, n, acc, refused>>
+VARIABLES dir, n, acc, refused, ab
+vars == <<dir, n, acc, refused, ab>>
+
+\* ---- the depth abstraction (makes 3 atoms x 3 components and more feasible) ---------------------
+\* Of the accumulated path only two facts matter for the future: is it still inside the base, and how
+\* many names below the base it is.  ab tracks them along every concrete run (history variable);
+\* AbsCommutes says the tracked value is the abstraction of the real accumulated path, so the abstract
+\* machine (NextAbs, no strings in the state) visits exactly the abstractions of the concrete runs.
+Abs(p, d) == LET P == NormState(p) D == NormState(d) IN
+             IF Contained(p, d) THEN [ok |-> TRUE, depth |-> Len(P.comps) - Len(D.comps)]
+             ELSE [ok |-> FALSE, depth |-> 0]
+
+RECURSIVE AbsFold(_, _)
+AbsFold(a, comps) == IF comps = <<>> \/ ~a.ok THEN a
+                     ELSE IF Head(comps) = DotDot
+                          THEN (IF a.depth = 0 THEN [ok |-> FALSE, depth |-> 0]
+                                ELSE AbsFold([ok |-> TRUE, depth |-> a.depth - 1], Tail(comps)))
+                          ELSE AbsFold([ok |-> TRUE, depth |-> a.depth + 1], Tail(comps))
+
+\* effect of joining the (seen, not refused) component g; an absolute g replaces everything
+AbsStep(a, g, d) == LET G == NormState(g) IN
+                    IF G.lvl > 0 THEN Abs(g, d)
+                    ELSE IF ~a.ok THEN a
+                    ELSE AbsFold(a, G.comps)
 
 Init == /\ dir \in Bases
         /\ n = 0
         /\ acc = StartDir(dir)
         /\ refused = FALSE
+        /\ ab = [ok |-> TRUE, depth |-> 0]
 
 Step(c) == LET g == Seen(Variant, c) IN
            /\ n' = n + 1
            /\ dir' = dir
-           /\ IF Refuses(Variant, g) THEN refused' = TRUE /\ acc' = <<>>
-              ELSE refused' = FALSE /\ acc' = Join2(acc, g)
+           /\ IF Refuses(Variant, g) THEN refused' = TRUE /\ acc' = <<>> /\ ab' = [ok |-> TRUE, depth |-> 0]
+              ELSE refused' = FALSE /\ acc' = Join2(acc, g) /\ ab' = AbsStep(ab, g, dir)
 
 Next == /\ ~refused
         /\ n < MaxParts
         /\ \E c \in Components : Step(c)
+
+\* the abstract machine: the same step without the string (acc stays empty)
+StepAbs(c) == LET g == Seen(Variant, c) IN
+              /\ n' = n + 1
+              /\ dir' = dir
+              /\ acc' = <<>>
+              /\ IF Refuses(Variant, g) THEN refused' = TRUE /\ ab' = [ok |-> TRUE, depth |-> 0]
+                 ELSE refused' = FALSE /\ ab' = AbsStep(ab, g, dir)
+InitAbs == Init /\ acc = StartDir(dir)
+NextAbs == /\ ~refused
+           /\ n < MaxParts
+           /\ \E c \in Components : StepAbs(c)
+ContractAbs == refused \/ ab.ok
+\* checked on every concrete configuration: the tracked abstraction is the abstraction of the real path
+AbsCommutes == refused \/ ab = Abs(acc, dir)
 
 \* ---- the property ------------------------------------------------------------------------
 Contract == refused \/ Contained(acc, dir)
@@ -78,6 +116,7 @@ XInit == /\ dir \in Bases
          /\ acc \in UNION {Tuples(k) : k \in 1..MaxParts}
          /\ n = 0
          /\ refused = FALSE
+         /\ ab = [ok |-> TRUE, depth |-> 0]
 XNext == FALSE /\ UNCHANGED vars
 Hash(s) == SumSeq(Concat(s)) + 31 * Len(s) + 7 * Len(Concat(s))
 Export == IF Stride > 1 /\ (Hash(acc) + Len(dir)) % Stride # 0 THEN TRUE
